@@ -1,6 +1,7 @@
 package main
 
 import (
+	"sync"
 	"flag"
 	"fmt"
 	"os"
@@ -12,7 +13,7 @@ import (
 func main() {
 	if len(os.Args) < 2 {
 		fmt.Fprintln(os.Stderr, "usage: bmverif verify|check ...")
-		os.Exit(2)
+		exit(2)
 	}
 	switch os.Args[1] {
 	case "verify":
@@ -23,9 +24,14 @@ func main() {
 		cmdReplay(os.Args[2:])
 	default:
 		fmt.Fprintln(os.Stderr, "unknown command", os.Args[1])
-		os.Exit(2)
+		exit(2)
 	}
 }
+
+var (
+	scratchMu   sync.Mutex
+	scratchDirs []string
+)
 
 func scratchDir() string {
 	base := os.Getenv("BMVERIF_SCRATCH")
@@ -36,7 +42,20 @@ func scratchDir() string {
 	if err != nil {
 		panic(err)
 	}
+	scratchMu.Lock()
+	scratchDirs = append(scratchDirs, d)
+	scratchMu.Unlock()
 	return d
+}
+
+// exit removes every scratch directory of this process (deferred removals do not run on os.Exit) and exits.
+func exit(code int) {
+	scratchMu.Lock()
+	for _, d := range scratchDirs {
+		os.RemoveAll(d)
+	}
+	scratchMu.Unlock()
+	os.Exit(code)
 }
 
 // cmdVerify: development entry point — verify named functions and print every obligation.
@@ -57,7 +76,7 @@ func cmdVerify(args []string) {
 	eng, err := loadEngine(*repo, strings.Split(*pkgs, ","), []string{*specDir})
 	if err != nil {
 		fmt.Fprintln(os.Stderr, "load:", err)
-		os.Exit(2)
+		exit(2)
 	}
 	fmt.Printf("loaded in %.1fs; %d contracts\n", time.Since(t0).Seconds(), len(eng.contracts))
 	var keys []string
@@ -76,7 +95,7 @@ func cmdVerify(args []string) {
 		ifc := eng.contracts[*iface]
 		if ifc == nil {
 			fmt.Println("no such interface contract", *iface)
-			os.Exit(2)
+			exit(2)
 		}
 		nOut := 0
 		var tasks []verifyTask
@@ -160,7 +179,7 @@ func cmdVerify(args []string) {
 	}
 	fmt.Printf("%d obligations, %d not discharged, %.1fs\n", len(all), bad, time.Since(t0).Seconds())
 	if bad > 0 {
-		os.Exit(1)
+		exit(1)
 	}
 }
 
